@@ -18,7 +18,7 @@ func init() {
 		Technique:   "constant-table agreement of the escape/unescape replacers; codec agreement (value provenance over SSA) between MountEntry.String and ParseMountEntry; loop discipline of the reuse analysis in snap-update-ns neededChanges (package type-checked with a stand-in <sys/capability.h>)",
 		Explanation: "Structural necessary conditions for 'mount profiles round-trip and namespace updates keep/re-create the right entries' (the order of the computed change list is not decided): (R1) escape and unescape are single-pass strings.NewReplacer(...).Replace tables that are mutual inverses pair by pair, escape covers the separators the parser splits on (space, tab), the line separator and the escape character itself, and each escape is backslash plus the three octal digits of the character; (R2) MountEntry.String passes Name, Dir, Type and the joined Options through escape and prints them with the two integers in the order the parser reads them, and ParseMountEntry passes fields 0-3 through unescape into the same struct fields and fields 4/5 into DumpFrequency/CheckPassNumber; (R3) in neededChanges, each current entry that is not skipped as lying under a changed directory either is marked reusable or makes its directory (with a trailing slash, i.e. as a path component) the prefix under which later entries are skipped and re-created; the unmount pass walks every current entry and emits Keep exactly for the reusable ones.",
 		NotDecided:  "the order of the resulting change list (sorting by origin/overname/mount point); what the kernel does with detached mounts; the profile of a parallel instance.",
-		Run:         func(c *Ctx) { runC28(c); runC28x(c) },
+		Run:         func(c *Ctx) { runC28(c); runC28x(c); runC28z(c) },
 		VariantSkip: map[string]string{"GOARCH=arm64": "cmd/snap-update-ns needs cgo and there is no arm64 C cross-compiler in the sandbox; with cgo off its bootstrap symbols are undefined"},
 	})
 }
